@@ -170,8 +170,9 @@ def check(program: Program, run: Run) -> None:
             continue
         for part, conds, in_rep in walk_parts(sk):
             if isinstance(part, Hole) and isinstance(part.value, Sym) and _root_self_attr(part.value) in na:
-                if any(("<class Term>" in show(cd, -20) or "<class Node>" in show(cd, -20)) and "isinstance" in show(cd, -20) for cd in conds):
-                    continue  # the formatting branch is taken only after an isinstance test excluded Term/Node
+                if any("<class Node>" in show(cd, -20) and "isinstance" in show(cd, -20) for cd in conds):
+                    continue  # the formatting branch is taken only after an isinstance test excluded every Node
+                # (excluding Term alone is not enough: Interval, Table, AliasedQuery and Cte render through get_sql(ctx) but are not Terms)
                 if any("hasattr" in show(cd, -20) and "get_sql" in show(cd, -20) and show(cd, -20).startswith("not") for cd in conds):
                     continue  # str() only for objects without get_sql
                 a = _root_self_attr(part.value)
